@@ -403,11 +403,13 @@ def quat_to_mat(q):
 
 
 def body_scene(shape, size, density, z, quat=(1.0, 0.0, 0.0, 0.0), e=0.0, dt=0.002, gravity=-9.81, collide=True,
-               friction=None):
+               friction=None, margin=None):
   """one free body with one geom above/in a ground plane"""
   z, density, e, dt, gravity = float(z), float(density), float(e), float(dt), float(gravity)
   con = '1' if collide else '0'
   fr = f' friction="{_f(friction)}"' if friction is not None else ''
+  if margin is not None:
+    fr += f' margin="{float(margin)!r}"'
   return f'''<mujoco model="body">
 <compiler angle="radian" autolimits="false"/>
 <option timestep="{dt!r}" gravity="0 0 {gravity!r}"/>
@@ -1127,8 +1129,10 @@ def run_separated(repo, seed, n_pairs, n_states, hist, budget_s):
       shape, size, dens = rand_body(rng)
       quat = modelgen.rand_unit_quat(rng)
       gap = float(rng.uniform(0.002, 0.03))
-      xml = body_scene(shape, size, dens, lowest_point(shape, size, quat_to_mat(quat)) + gap, quat=quat)
-      types = f'hovering {shape} gap {gap * 1e3:.1f}mm'
+      # a legal collision margin larger than the gap: the geoms are inside each other's margin but do not touch
+      xml = body_scene(shape, size, dens, lowest_point(shape, size, quat_to_mat(quat)) + gap, quat=quat,
+                       margin=float(rng.uniform(0.04, 0.08)))
+      types = f'hovering {shape} gap {gap * 1e3:.1f}mm with margin'
     else:
       xml, meta = modelgen.gen_model(rng, collide=True, ground=True, limits=0.3, actuators=(0, 2), n_links=(1, 4))
       types = meta['link_types']
@@ -1172,7 +1176,13 @@ def run_limit(repo, seed, n_pairs, n_states, budget_s):
       st['three_hinge_pairs'] += 1
     else:
       orth = mi % 3 != 0
-      xml, meta = modelgen.gen_model(rng, limits=0.8, actuators=(0, 2), n_links=(1, 4), orthogonal=orth)
+      o = dict(limits=0.8, actuators=(0, 2), n_links=(1, 4), orthogonal=orth, limit_excl_zero=0.4)
+      if mi == 1:
+        # single limited slides/hinges whose range excludes zero (the 1-dof limit code of every pipeline)
+        o.update(stack=(1, 1), limits=1.0, limit_excl_zero=1.0, kinds='slide', n_links=(2, 3))
+      if mi == 2:
+        o.update(stack=(1, 1), limits=1.0, limit_excl_zero=1.0, kinds='hinge', n_links=(2, 3))
+      xml, meta = modelgen.gen_model(rng, **o)
       types = meta['link_types'] + (':orth' if orth else ':free-axes(generalized only)')
     # the spring and positional pipelines measure the coordinates of a multi-dof link by projecting on its axes
     # (`dof.motion.vel @ j.pos`, Euler angles of `axis_angle_ang`): for NON-orthogonal stacked axes these are not q
